@@ -11,7 +11,7 @@ import (
 )
 
 var c17Floor = []string{"after-rejected", "after-other-reading", "comment", "opts.none", "opts.W", "opts.P", "opts.I", "opts.WP", "opts.WI", "opts.PI", "opts.WPI", "spell.dq", "spell.brackets", "spell.neutral-under-option",
-	"lit.dquote", "lit.squote", "lit.backtick", "lit.backslash", "lit.bracket", "ident.dquote-in-backtick", "ident.bracket", "ident.space", "array.nested", "array.empty", "array.with-bracket-literal", "array.glued", "ident.backslash-end", "ident.dquote-doubled", "ident.backtick-inside", "path.bracket", "where", "shape.derived", "shape.cte", "shape.union", "shape.with-shadow", "shape.with-body"}
+	"lit.dquote", "lit.squote", "lit.backtick", "lit.backslash", "lit.bracket", "ident.dquote-in-backtick", "ident.bracket", "ident.space", "array.nested", "array.empty", "array.with-bracket-literal", "array.glued", "ident.backslash-end", "ident.backslash-end.dq", "ident.dquote-doubled", "ident.backtick-inside", "path.bracket", "where", "shape.derived", "shape.cte", "shape.union", "shape.with-shadow", "shape.with-body"}
 
 func init() {
 	fw.Register(&fw.Prop{
@@ -165,10 +165,14 @@ func c17Run(c *fw.Case) {
 			feats = append(feats, "ident.backtick-inside")
 		}
 		if allowDQ && (force == "ident.backslash-end" || c.Chance(0.08)) {
-			// a back-ticked identifier that ends in a backslash (no escapes there)
+			// an identifier that ends in a backslash (no escapes there), back-ticked
+			// or - under the option - double-quoted
 			s = strings.TrimRight(s, " ") + "\\"
-			bt = true
+			bt = c.Idx%2 == 0
 			feats = append(feats, "ident.backslash-end")
+			if !bt {
+				feats = append(feats, "ident.backslash-end.dq")
+			}
 		}
 		if strings.ContainsAny(s, "[]") {
 			feats = append(feats, "ident.bracket")
